@@ -85,8 +85,11 @@ def compare_run(out, h, ref, check_final=True):
             out.fail("accepted-size", r)
     # independent invariants
     seqs = [t[0] for t in m.trace if t[0] != "W"]
-    if len(seqs) != len(set(seqs)):
-        out.fail("executed-twice", seqs)
+    # once per scheduling: an event object that its handler scheduled a second time (action "again") runs twice
+    import collections
+    over = [q for q, k in collections.Counter(seqs).items() if k > (2 if q in m.again_done else 1)]
+    if over:
+        out.fail("executed-twice", {"events": over[:5], "trace_seqs": seqs[:40]})
     times = [_num(t[2]) for t in m.trace]
     if any(times[i] > times[i + 1] for i in range(len(times) - 1)):
         out.fail("time-order", times)
